@@ -265,12 +265,17 @@ func (s *Server) makeDDRResponse(req *dns.Msg) (resp *dns.Msg) {
 		resp.Answer = append(resp.Answer, ans)
 	}
 
+	prx := s.proxy()
+	if prx == nil {
+		return resp
+	}
+
 	if s.hasIPAddrs {
 		// Only add DNS-over-TLS resolvers in case the certificate contains IP
 		// addresses.
 		//
 		// See https://github.com/AdguardTeam/AdGuardHome/issues/4927.
-		for _, addr := range s.dnsProxy.TLSListenAddr {
+		for _, addr := range prx.TLSListenAddr {
 			values := []dns.SVCBKeyValue{
 				&dns.SVCBAlpn{Alpn: []string{"dot"}},
 				&dns.SVCBPort{Port: uint16(addr.Port)},
@@ -287,7 +292,7 @@ func (s *Server) makeDDRResponse(req *dns.Msg) (resp *dns.Msg) {
 		}
 	}
 
-	for _, addr := range s.dnsProxy.QUICListenAddr {
+	for _, addr := range prx.QUICListenAddr {
 		values := []dns.SVCBKeyValue{
 			&dns.SVCBAlpn{Alpn: []string{"doq"}},
 			&dns.SVCBPort{Port: uint16(addr.Port)},
